@@ -24,6 +24,7 @@ ASSUMPTIONS = [
     "connection is C17's subject; infraction-parameter updates (C20) are not part of the histories",
     "staking.UnbondingTime does not fail (a failure inside SendVSCPacketsToChain is swallowed by the Go code and would leave "
     "a stopped consumer without removal time; not modelled)",
+    "a validator assigns at most one consumer key per consumer in the histories (key replacement and pruning: C05/C06)",
     "spawn time of a launched/stopped/deleted consumer keeps its last value (descriptive record): 'initialized iff spawn time "
     "non-zero' is stated for pre-launch phases",
 ]
@@ -53,6 +54,7 @@ class Gen:
         self.ops = []
         self.cons = []          # dict(owner, phase, spawn, rev, hrev, conn, optin:set, chan, client)
         self.spawns = []
+        self.keyed = set()
 
     # -------------------------------------------------------------- helpers
     def pick_spawn(self):
@@ -154,6 +156,10 @@ class Gen:
         c = self.any_id() if c is None else c
         v = r.choice([0, 1, 2, 3, 3]) if v is None else v
         key = (1 if r.random() < 0.3 else 0) if key is None else key
+        if key and (c, v) in self.keyed:
+            key = 0                                       # key replacement is C05/C06's subject
+        if key:
+            self.keyed.add((c, v))
         self.ops.append([4, c, v, key])
         if c < len(self.cons) and self.cons[c]["phase"] in (1, 2, 3):
             self.cons[c]["optin"].add(v)
@@ -266,6 +272,15 @@ def halting_history(rng):
     return g.case()
 
 
+def quieten(ops, idxs, every):
+    """Bulk set-up: of the creates / opt-ins / owner stops at the given positions only every `every`-th is observed
+    (negative tag = executed but not observed).  The action right before a begin-block is always observed, so that
+    the schedule clauses of the monitor see the exact pre-state."""
+    for j in idxs:
+        if ops[j][0] in (1, 3, 4) and j % every != every - 1 and j + 1 < len(ops) and abs(ops[j + 1][0]) != 7:
+            ops[j][0] = -ops[j][0]
+
+
 def big_history(rng):
     """More than 200 consumers due in one block; some launch, some fall back; later blocks pick up the rest."""
     g = Gen(rng, 50)
@@ -283,10 +298,7 @@ def big_history(rng):
     for i in range(n):
         if i % 4 != 1:
             g.optin(i, v=3 if i % 5 else 0, key=0)
-    # bulk set-up: only every 25th action is observed
-    for j, o in enumerate(g.ops):
-        if j % 25 != 24:
-            o[0] = -o[0]
+    quieten(g.ops, range(len(g.ops)), 25)
     # a few reschedules move consumers to the back of their queue entry
     for _ in range(rng.randint(0, 5)):
         c = rng.randrange(n)
